@@ -213,7 +213,7 @@ func checkC18WS(sc *Scenario, res *RunResult, t *Truth) []Violation {
 					return vs
 				}
 			}
-			if f.spec.Mode == "read" && len(w.lines) > 0 && writtenBefore(f.open) < len(w.lines) && cause != "follower-stopped-reading" {
+			if f.spec.Mode == "read" && len(w.lines) > 0 && writtenBefore(f.open) < len(w.lines) && !anyStall {
 				if prev != len(w.lines)-1 {
 					last := "nothing"
 					if prev >= 0 {
